@@ -202,14 +202,18 @@ impl ProxyClusterMeta {
         };
 
         // Skip the "UMCTL SETCLUSTER"
-        let it = arr.iter().skip(2).flat_map(|resp| match resp {
-            Resp::Bulk(BulkStr::Str(safe_str)) => match str::from_utf8(safe_str.as_ref()) {
-                Ok(s) => Some(s.to_string()),
-                _ => None,
-            },
-            _ => None,
-        });
-        let mut it = it.peekable();
+        let mut args = Vec::with_capacity(arr.len());
+        for resp in arr.iter().skip(2) {
+            // Silently skipping an invalid element would shift all the following arguments.
+            match resp {
+                Resp::Bulk(BulkStr::Str(safe_str)) => match str::from_utf8(safe_str.as_ref()) {
+                    Ok(s) => args.push(s.to_string()),
+                    _ => return Err(CmdParseError::InvalidArgs),
+                },
+                _ => return Err(CmdParseError::InvalidArgs),
+            }
+        }
+        let mut it = args.into_iter().peekable();
 
         Self::parse(&mut it)
     }
